@@ -561,9 +561,10 @@ func main() {
 	capMax := flag.Int("max", 1000, "capture mode: stop after this many probes")
 	capIdle := flag.Duration("idle", 400*time.Millisecond, "capture mode: stop when no probe arrived for this long")
 	capTotal := flag.Duration("total", 30*time.Second, "capture mode: overall timeout")
+	capMatch := flag.String("match", "arp", "capture mode: arp | dstmac:<mac> | syn:<ip>")
 	flag.Parse()
 	if *capIface != "" {
-		capture(*out, *capIface, *capMax, *capIdle, *capTotal)
+		capture(*out, *capIface, *capMatch, *capMax, *capIdle, *capTotal)
 		return
 	}
 	w := hlib.NewOut(*out)
